@@ -1,12 +1,13 @@
 CONSTANTS
   Configs <- TierConfigs
-  Tier = "mid"
+  Tier = "nv"
   CyclesFromEveryNode = TRUE
   RefDepthChecked = TRUE
   ExitLinked = TRUE
   StopAfterAnswer = TRUE
   ResumeAllEdges = TRUE
   StepCap = 600
+  CheckLoader = FALSE
 SPECIFICATION Spec
 CHECK_DEADLOCK FALSE
-INVARIANT NoAnswer
+INVARIANT NoFanOut
